@@ -136,6 +136,10 @@ class C04(PropertyCheck):
             "16..33, 63..100, 101..130 (paths that cannot end early, no step limit at all, eos unlikely at every "
             "step); their history -> scores tables are built on demand (every history the searched model was called "
             "on + every prefix of a returned path; the driver reports a live history it needs and does not find). "
+            "LONG RUNS WITHOUT A STEP LIMIT, 3 per quick run (12 in thorough): max_iters omitted, eos set, the "
+            "language model makes eos impossible for 257..600 / 1025..1100 / 1101..2100 steps (next to 256, 512, "
+            "1024, 2048) and then forces it; V 2-3, width 1-2 (1 beyond 1100 steps), batch unset / 2 / 3 (the "
+            "other elements finish within 6 steps and stay frozen), both finish_all_paths, 2^-8 grid. "
             "non-trivial (search): >= 2 "
             "finite paths and a pruning happened, or batch elements finish at different steps; (advance): "
             "K < candidates. distinct by the case dict")
@@ -403,6 +407,30 @@ class C04(PropertyCheck):
         return self._search_case(rng, V, T, width, eos, fa, batch, zeros=zeros, qbits=qbits, force=force,
                                  hard=hard, via=via, pad=self._pad_choice(rng, V, eos), lm=lm)
 
+    # max_iters OMITTED means "run until every element has finished", however long that takes: the language
+    # model makes eos impossible for hundreds / more than a thousand / two thousand steps (forced depth on both
+    # sides of 256, 512, 1024, 2048), then forces it. Tiny vocabulary and width keep such a run cheap (the cost
+    # is the length of the histories, quadratic in the depth). Judged by the correspondence with the model (which
+    # has no step limit at all when max_iters is unset), C04.length, stops-at-first-eos, run-to-completion.
+    LONG_RUN_BUCKETS = ((257, 300, 511, 513, 600), (1025, 1026, 1040, 1100), (1101, 1500, 2047, 2049, 2100))
+
+    def _long_run_case(self, rng, bucket):
+        depth = rng.choice(bucket)
+        V = rng.choice([2, 3, 3])
+        width = rng.choice([1, 1, 2]) if depth <= 1100 else 1
+        eos = rng.randrange(V)
+        batch = rng.choice([None, None, 2, 3])
+        n = 1 if batch is None else batch
+        # the other elements of a batch finish within a few steps and stay frozen for the rest of the run
+        force = [rng.choice([0, 1, 2, 5]) for _ in range(n)]
+        force[rng.randrange(n)] = depth - 1          # (eos forced from step `depth - 1`: `depth` steps)
+        lm = {"lazy": True, "cap": depth + 3, "eos_late": True, "double": rng.random() < 0.2,
+              "view": rng.random() < 0.15}
+        # 2^-8 grid: |score| <= 30 * 2100 < 2^16 stays exact in float32
+        return self._search_case(rng, V, None, width, eos, rng.random() < 0.5, batch, zeros=False, qbits=8,
+                                 force=force, hard=True, via=rng.choice(["instance", "subclass"]),
+                                 pad=self._pad_choice(rng, V, eos), lm=lm)
+
     def _size_advance_case(self, rng, dim, bucket):
         """One large `beam_search_advance` case; the tensors are regenerated from `gen.seed` (`_adv_data`)
         so that the case stays a few numbers. `dim`: "V", "width", "Kp", "N", "S", "cands" (Kp * V)."""
@@ -494,6 +522,8 @@ class C04(PropertyCheck):
                 yield self._size_search_case(rng, "steps", b)
                 yield self._size_search_case(rng, "steps", b, "rare")
                 yield self._size_advance_case(rng, "S", b)
+            for b in self.LONG_RUN_BUCKETS:
+                yield self._long_run_case(rng, b)
             # width * V next to 2^13, 2^15 (search: also 2^17 beyond the quick tier), Kp * V up to 2^17
             for i, b in enumerate(self.CAND_BUCKETS):
                 if i < 2 or tier != "quick":
@@ -784,9 +814,9 @@ class C04(PropertyCheck):
                 for k in range(K):
                     if torch.isinf(lpp[n, k]) or bool(em[n, k]):
                         continue
-                    path = tuple(int(x) for x in yp[:int(yl[n, k]), n, k])
+                    path = tuple(yp[:int(yl[n, k]), n, k].tolist())
                     want = tables[n].get(path)
-                    got = [float(x) for x in q[n, k]]
+                    got = q[n, k].tolist()
                     if want is None:
                         out.append(f"step {t} element {n} slot {k}: live finite path {list(path)} is not a "
                                    f"history of length {t}")
@@ -1287,6 +1317,10 @@ class C04(PropertyCheck):
             sz.append("search.size.max_iters=" + ("16..33" if T <= 33 else "34..100" if T <= 100 else ">100"))
         if case["width"] * V >= 1 << 12:
             sz.append(f"search.size.candidates>=2^{(case['width'] * V).bit_length() - 1}")
+        fd_ = self._forced_depth(case)
+        if T is None and fd_ is not None and fd_ >= 16:
+            sz.append("search.size.max_iters omitted, forced steps=" + (
+                "17..130" if fd_ < 256 else "257..1024" if fd_ < 1024 else "1025..2048" if fd_ < 2048 else ">2048"))
         if sz:
             # the histograms of V / max_iters / batch list the small values; the large ones are binned
             V_, T_, B_ = (">16" if V > 16 else V), (">=16" if (T or 0) >= 16 else T), \
